@@ -266,7 +266,8 @@ func (c *FnVC) next(x *ssa.Next) {
 		// position p; it stops when p == len; otherwise it yields (p, rune) and advances by the
 		// width w of the encoding at p: an ASCII byte is its own rune with w == 1; a byte >= 0x80
 		// starts a sequence of 1..4 bytes (1 for an invalid encoding, which yields RuneError)
-		// whose further bytes are continuation bytes (>= 0x80), and yields a rune >= 0x80.
+		// whose further bytes are continuation bytes (>= 0x80), and yields a rune in 0x80..0x10FFFF
+		// (a decoded code point, or RuneError = 0xFFFD).
 		s := c.v(rng.X)
 		rl := c.rangeLoc(rng)
 		p := c.freshName("next_p_" + sanitize(x.Name()))
@@ -276,7 +277,7 @@ func (c *FnVC) next(x *ssa.Next) {
 		w := c.freshConst("next_w_"+sanitize(x.Name()), "(_ BitVec 64)")
 		c.assume(fmt.Sprintf("(= %s (and (bvsle #x0000000000000000 %s) (bvslt %s (str_len %s))))", okn, p, p, s))
 		c.assume(fmt.Sprintf("(=> (and %s (bvult (select (str_arr %s) %s) #x80)) (and (= %s ((_ zero_extend 24) (select (str_arr %s) %s))) (= %s #x0000000000000001)))", okn, s, k, v, s, k, w))
-		c.assume(fmt.Sprintf("(=> (and %s (bvuge (select (str_arr %s) %s) #x80)) (and (bvuge %s #x00000080) (bvsle #x0000000000000001 %s) (bvsle %s #x0000000000000004) (bvsle (bvadd %s %s) (str_len %s)) (forall ((j (_ BitVec 64))) (=> (and (bvslt %s j) (bvslt j (bvadd %s %s))) (bvuge (select (str_arr %s) j) #x80)))))", okn, s, k, v, w, w, p, w, s, p, p, w, s))
+		c.assume(fmt.Sprintf("(=> (and %s (bvuge (select (str_arr %s) %s) #x80)) (and (bvuge %s #x00000080) (bvule %s #x0010ffff) (bvsle #x0000000000000001 %s) (bvsle %s #x0000000000000004) (bvsle (bvadd %s %s) (str_len %s)) (forall ((j (_ BitVec 64))) (=> (and (bvslt %s j) (bvslt j (bvadd %s %s))) (bvuge (select (str_arr %s) j) #x80)))))", okn, s, k, v, v, w, w, p, w, s, p, p, w, s))
 		c.setH("bv64", fmt.Sprintf("(store %s %s (ite %s (bvadd %s %s) %s))", c.H("bv64"), rl, okn, p, w, p))
 		c.tuples[x] = []string{okn, k, v}
 		return
